@@ -153,6 +153,10 @@ class Gen(object):
                     self.emit("drop", ent[0].name)
             live = self.live()
             x = r.random()
+            if self.closings and r.random() < 0.01:
+                self.nconn += 1
+                self.emit("halfconn", "h%d" % self.nconn)
+                continue
             if live and self.closings and r.random() < 0.03:
                 # a client starts the websocket closing handshake; the server learns of the lost connection
                 # only a few events later (commands of others are processed in between)
